@@ -42,8 +42,12 @@ m = {
          "kind_free_text": "Lean 4 project Rc: executable models (Rc/Model), property theorems (Rc/Thm/Cxx.lean), compiled line-protocol driver rcdriver"},
         {"name": "rc-harness", "path": "harness/", "serves_properties": [c["property_id"] for c in checks],
          "kind_free_text": "Rust crate linked against /repo's working tree with hooks on: generators, in-process execution of the real code, oracle"},
-        {"name": "codepoint-translator", "path": "tools/gen_codepoints.py", "serves_properties": ["C18"],
-         "kind_free_text": "regenerates the Lean code-point tables from the Rust macro invocations on every run"},
+        {"name": "codepoint-translator", "path": "tools/gen_codepoints.py", "serves_properties": ["C18", "C04", "C07", "C17", "C03", "C06", "C09", "C15"],
+         "kind_free_text": "regenerates Lean tables from the Rust source on every run: the code-point tables of the typeenum!/afisafi!/path_attributes! invocations (C18), the (type code, FLAGS) column of path_attributes! (--attr-flags: C04, C07, C17) and 13 literal constants such as MAX_PDU, the 4000-octet batch threshold, COFF, AS_TRANS, the 18/19/4096 of the frame readers (--constants: C03, C06, C09, C15); a pattern that is not found exactly once fails the proof step"},
+        {"name": "panic-site-inventory", "path": "tools/panic_sites.py", "serves_properties": ["C02", "C03", "C09", "C15"],
+         "kind_free_text": "lists, per function of the decoding path, the panic-capable constructs (index/slice, unwrap/expect, panic-family macros, unchecked arithmetic, narrowing casts) and compares them with the committed inventory in which each is mapped to the model operation that mirrors it and to the lemma or syntactic reason that discharges it; a new or changed site fails the proof step"},
+        {"name": "tie-coverage", "path": "tools/tie_coverage.sh", "serves_properties": [c["property_id"] for c in checks],
+         "kind_free_text": "source-based coverage of the quick-tier harness run per property (nightly toolchain, separate target directory): which anchored functions no request executes; recorded in tools/props/Cxx.json tie_coverage and the evidence; thorough-tier post step reports a regression (exit 2, never a VIOLATION) when an anchored function of the recorded baseline is no longer executed"},
         {"name": "wellknown-translator", "path": "tools/gen_wellknown.py", "serves_properties": ["C19"],
          "kind_free_text": "regenerates the Lean well-known community table from the wellknown! invocation on every run"},
         {"name": "fsm-arm-inventory", "path": "tools/fsm_arms.py", "serves_properties": ["C08"],
